@@ -250,6 +250,187 @@ def _stmt_toks(t, r, out):
         _sub(t, r, out)
 
 
+# ----------------------------------------------------------------------------- minimal parenthesisation
+# The documented operator table (smartquery/lexer.py `precedence`, lowest first) and the one construct without an entry
+# (if-else: binds loosest; its else-branch and a lambda body extend as far to the right as they can):
+#   or < and < comparisons/in (non-associative) < + - < * / < ** (right) < | < . < not < unary - < [ ]
+_LEVEL = {'or': (1, 'left'), 'and': (2, 'left'),
+          '==': (3, 'non'), '!=': (3, 'non'), '>': (3, 'non'), '<': (3, 'non'), '>=': (3, 'non'), '<=': (3, 'non'),
+          'in': (3, 'non'), 'notin': (3, 'non'),
+          '+': (4, 'left'), '-': (4, 'left'), '*': (5, 'left'), '/': (5, 'left'), '**': (6, 'right')}
+_P_PIPE, _P_DOT, _P_NOT, _P_NEG, _P_IDX, _P_PRIMARY = 7, 8, 9, 10, 11, 100
+
+
+def _prec(t):
+    tag = t[0]
+    if tag == 'bin':
+        return _LEVEL[t[1]][0]
+    if tag == 'if':
+        return 0
+    if tag == 'lambda':
+        return -1
+    if tag == 'neg':
+        return _P_NEG
+    if tag == 'not':
+        return _P_NOT
+    if tag in ('index', 'slice'):
+        return _P_IDX
+    if tag == 'call':
+        sugar = t[3] if len(t) > 3 else 'plain'
+        if sugar == 'plain' or not t[2]:
+            return _P_PRIMARY
+        return _P_DOT if sugar == 'method' else _P_PIPE
+    return _P_PRIMARY
+
+
+def _m(t, r, out, need):
+    """Expression t where the context needs binding strength >= need (-1: delimited on both sides, anything goes)."""
+    if _prec(t) < need or r.random() < 0.05:
+        out.append('(')
+        _m_inner(t, r, out)
+        out.append(')')
+    else:
+        _m_inner(t, r, out)
+
+
+def _m_args(args, r, out):
+    for i, x in enumerate(args):
+        if i:
+            out.append(',')
+        _m(x, r, out, -1)
+
+
+def _m_inner(t, r, out):
+    tag = t[0]
+    if tag in _ATOMS or tag in ('bool', 'none'):
+        _toks(t, r, out)
+    elif tag == 'bin':
+        op = t[1]
+        lv, assoc = _LEVEL[op]
+        if op == 'notin':
+            ln, rn = _P_NEG, lv + 1       # the `not` of `not in` is looked at with the strength of unary not
+        elif assoc == 'left':
+            ln, rn = lv, lv + 1
+        elif assoc == 'right':
+            ln, rn = lv + 1, lv
+        else:
+            ln, rn = lv + 1, lv + 1
+        _m(t[2], r, out, ln)
+        out.append(BIN_TEXT.get(op, op))
+        _m(t[3], r, out, rn)
+    elif tag == 'neg':
+        out.append('-')
+        _m(t[1], r, out, _P_NEG)
+    elif tag == 'not':
+        out.append('not')
+        _m(t[1], r, out, _P_NOT)
+    elif tag == 'if':
+        _m(t[1], r, out, 1)
+        out.append('if')
+        _m(t[2], r, out, 1)
+        out.append('else')
+        _m(t[3], r, out, 0)
+    elif tag == 'list':
+        out.append('[')
+        _m_args(t[1], r, out)
+        if t[1] and r.random() < 0.1:
+            out.append(',')
+        out.append(']')
+    elif tag == 'dict':
+        out.append('{')
+        for i, (k, v) in enumerate(t[1]):
+            if i:
+                out.append(',')
+            _m(k, r, out, 0)
+            out.append(':')
+            _m(v, r, out, -1)
+        out.append('}')
+    elif tag == 'index':
+        _m(t[1], r, out, _P_IDX)
+        out.append('[')
+        _m(t[2], r, out, -1)
+        out.append(']')
+    elif tag == 'slice':
+        _m(t[1], r, out, _P_IDX)
+        out.append('[')
+        shape = t[2]
+        a, b = t[3], t[4]
+        if shape == ':':
+            out.append(':')
+        elif shape == 'a:b':
+            _m(a, r, out, 0); out.append(':'); _m(b, r, out, 0)
+        elif shape == 'a:':
+            _m(a, r, out, 0); out.append(':')
+        elif shape == ':b':
+            out.append(':'); _m(a, r, out, 0)
+        elif shape == 'a::':
+            _m(a, r, out, 0); out.append(':'); out.append(':')
+        elif shape == ':b:':
+            out.append(':'); _m(a, r, out, 0); out.append(':')
+        elif shape == '::s':
+            out.append(':'); out.append(':'); _m(a, r, out, 0)
+        else:
+            raise ValueError(shape)
+        out.append(']')
+    elif tag == 'call':
+        f, args, sugar = t[1], t[2], t[3] if len(t) > 3 else 'plain'
+        if sugar == 'plain' or not args:
+            out.append(f)
+            out.append('(')
+            _m_args(args, r, out)
+            out.append(')')
+        elif sugar == 'method':
+            _m(args[0], r, out, _P_DOT)
+            out.append('.')
+            out.append(f)
+            out.append('(')
+            _m_args(args[1:], r, out)
+            out.append(')')
+        elif sugar in ('pipe', 'pipebare'):
+            _m(args[0], r, out, _P_PIPE)
+            out.append('|')
+            out.append(f)
+            if len(args) > 1:
+                out.append('(')
+                _m_args(args[1:], r, out)
+                out.append(')')
+        else:
+            raise ValueError(sugar)
+    elif tag == 'lambda':
+        params, body = t[1], t[2]
+        if len(params) == 1:
+            out.append(params[0])
+        else:
+            out.append('(')
+            for i, p in enumerate(params):
+                if i:
+                    out.append(',')
+                out.append(p)
+            out.append(')')
+        out.append('=>')
+        _m(body, r, out, -1)
+    else:
+        raise ValueError('not an expression: %r' % (tag,))
+
+
+def _m_stmt(t, r, out):
+    tag = t[0]
+    if tag == 'assign':
+        out.append(t[1]); out.append('='); _m(t[2], r, out, -1)
+    elif tag == 'short':
+        out.append(t[1]); out.append(t[2]); _m(t[3], r, out, -1)
+    elif tag == 'setitem':
+        _m(t[1], r, out, _P_IDX); out.append('['); _m(t[2], r, out, -1); out.append(']')
+        out.append('='); _m(t[3], r, out, -1)
+    elif tag == 'setitemop':
+        _m(t[1], r, out, _P_IDX); out.append('['); _m(t[2], r, out, -1); out.append(']')
+        out.append(t[3]); _m(t[4], r, out, -1)
+    elif tag == 'del':
+        out.append('del'); _m(t[1], r, out, _P_IDX); out.append('['); _m(t[2], r, out, -1); out.append(']')
+    else:
+        _m(t, r, out, -1)
+
+
 def _join(tokens, r):
     """Join tokens with spaces; optional extra blanks / line breaks inside brackets when styled."""
     parts = []
@@ -296,9 +477,14 @@ def render(tree, style=0) -> str:
     r = RealRandom(style) if style else None
     stmts = tree[1] if tree[0] == 'block' else [tree]
     lines = []
+    # 4 styles in 10 leave out every pair of parentheses the operator table makes redundant
+    minimal = r is not None and r.random() < 0.4
     for st in stmts:
         out = []
-        _stmt_toks(st, r, out)
+        if minimal:
+            _m_stmt(st, r, out)
+        else:
+            _stmt_toks(st, r, out)
         line = _join(out, r)
         if r is not None and r.random() < 0.08:
             line += '  # ' + r.choice(['c', 'x = 1', '"q"', 'del'])
